@@ -61,8 +61,15 @@ def correspondence(ctx):
 
 
 def run(ctx):
-    return G.run(ctx, 'C01', 'proof', ('Gen_util', 'Gen_solver', 'Gen_tables'), ['C01.v'], TRUSTED, correspondence=correspondence)
+    # with `projections` the user's box is one more convex set: that it is projected last (so that Dykstra's output is
+    # exactly inside it) and that evaluation points are Dykstra outputs are C09's obligations, compiled here as well
+    def c09_sweep(c):
+        G.oracle_sweep(c, 'C09', 'thorough', seed_offset=7)
+    return G.run(ctx, 'C01', 'proof', ('Gen_util', 'Gen_model', 'Gen_solver', 'Gen_tables'), ['Char_model.v', 'C15.v', 'C09.v', 'C01.v'], TRUSTED,
+                 correspondence=correspondence, corr_needs=[], search_extra=c09_sweep)
 
 
 def replay(payload):
+    if str(payload.get('signature', '')).startswith('C09:'):
+        return G.replay('C09', payload)
     return G.replay('C01', payload)
